@@ -165,6 +165,80 @@ pub fn ring_inv_large<const NM: usize>(m: [Word; NM], f: [Word; 2], bits: u32) {
     core::mem::forget(ring);
 }
 
+/// multi-word ring kernels (modular/add.rs) through the verification hook: raw residues are symbolic
+/// values below the literal modulus (pre-shifted by the normalisation shift), result = (a op b) mod m
+pub fn ring_large_kernel<const NM: usize>(m: [Word; NM], op: u8) {
+    use core::cmp::Ordering;
+    let a: [Word; NM] = nd::any();
+    let b: [Word; NM] = nd::any();
+    nd::assume(oracle::cmp(&a, &m) == Ordering::Less && oracle::cmp(&b, &m) == Ordering::Less);
+    // expected value
+    let mut want = [0 as Word; NM];
+    let mut tmp = [0 as Word; NM];
+    match op {
+        0 => {
+            let carry = oracle::add(&a, &b, &mut tmp);
+            if carry || oracle::cmp(&tmp, &m) != Ordering::Less {
+                oracle::sub(&tmp, &m, &mut want);
+            } else {
+                want = tmp;
+            }
+        }
+        1 => {
+            if oracle::sub(&a, &b, &mut tmp) {
+                oracle::add(&tmp, &m, &mut want);
+            } else {
+                want = tmp;
+            }
+        }
+        2 => {
+            if oracle::is_zero(&a) {
+                want = a;
+            } else {
+                oracle::sub(&m, &a, &mut want);
+            }
+        }
+        3 => {
+            let carry = oracle::add(&a, &a, &mut tmp);
+            if carry || oracle::cmp(&tmp, &m) != Ordering::Less {
+                oracle::sub(&tmp, &m, &mut want);
+            } else {
+                want = tmp;
+            }
+        }
+        _ => {
+            // swapped subtraction: b := a - b
+            if oracle::sub(&a, &b, &mut tmp) {
+                oracle::add(&tmp, &m, &mut want);
+            } else {
+                want = tmp;
+            }
+        }
+    }
+    // raw residues: shifted left by the normalisation shift of m (leading zeros of its top word)
+    let sh = m[NM - 1].leading_zeros();
+    let shl = |x: &[Word; NM]| -> [Word; NM] {
+        let mut o = [0 as Word; NM];
+        let mut i = 0;
+        while i < NM {
+            let lo = if i > 0 && sh > 0 { x[i - 1] >> (Word::BITS - sh) } else { 0 };
+            o[i] = (x[i] << sh) | lo;
+            i += 1;
+        }
+        o
+    };
+    let (ra, rb) = (shl(&a), shl(&b));
+    let (res, shift) = dashu_int::verif::modular_large::verif_large_op(&m, &ra, &rb, op);
+    assert!(shift == sh);
+    let rw = shl(&want);
+    assert!(res.len() == NM);
+    let mut i = 0;
+    while i < NM {
+        assert!(res[i] == rw[i], "ring kernel result differs from (a op b) mod m");
+        i += 1;
+    }
+}
+
 /// mixing elements of two ConstDivisor instances (same modulus value) panics
 pub fn ring_mix(op: u8) {
     let ring1 = ConstDivisor::new(ubig(&[10007]));
